@@ -95,7 +95,9 @@ def _gen_block(rng, depth=0, allow_bad=True):
     if depth > 2 or r < 0.35:
         return {"t": rng.choice(["Para", "Plain"]), "c": gen_inlines(rng, depth, allow_bad)}
     if r < 0.42:
-        return {"t": "RawBlock", "c": ["html", rng.choice(["<div>x</div>", "", "<!-- c -->\nline"])]}
+        return {"t": "RawBlock", "c": ["html", rng.choice(["<div>x</div>", "", "<!-- c -->\nline", "<details>", "</details>",
+                                                           "<summary> Click to expand </summary>",
+                                                           "<details>\n<summary> Click to expand </summary>\n\nbody\n\n</details>"])]}
     if r < 0.5:
         return {"t": "CodeBlock", "c": [["", rng.sample(["python", "numberLines"], rng.randint(0, 2)), []], rng.choice(["x = 1\ny = 2", ""])]}
     if r < 0.62:
@@ -121,8 +123,10 @@ def gen_header(rng, allow_bad=False, small=False):
                                      [{"t": "Str", "c": rng.choice(["A", "B", "A/B", "B/A", "A/B/A"])}]]}
     lvl = rng.choice([1, 1, 2, 2, 3, 3, 4, 5, 6])
     r = rng.random()
-    if r < 0.6:
-        inl = [{"t": "Str", "c": rng.choice(["A", "B", "C", "A/B", "B/C", "A/B/C", "A", "B", "In/Out", "a\\", "é", "T"])}]
+    if r < 0.05:
+        inl = []                                   # a header without any text (a bare `#` line)
+    elif r < 0.6:
+        inl = [{"t": "Str", "c": rng.choice(["A", "B", "C", "A/B", "B/C", "A/B/C", "A", "B", "In/Out", "a\\", "é", "T", "C:\\", "R²", "µs", "…", "A\u00a0B"])}]
     else:
         inl = gen_inlines(rng, 1, allow_bad)
     return {"t": "Header", "c": [lvl, ["h", [], []], inl]}
@@ -132,6 +136,18 @@ def gen_doc(rng, allow_bad=False, start_with_header=True):
     n = rng.randint(1, 12)
     blocks = []
     small = rng.random() < 0.3
+    v = rng.random()
+    if v < 0.04:
+        # a section whose whole content spells the wrapper skops writes for folded sections, with sub-headers below it
+        H = lambda l, t: {"t": "Header", "c": [l, ["h", [], []], [{"t": "Str", "c": t}]]}
+        R = lambda t: {"t": "RawBlock", "c": ["html", t]}
+        return [H(1, "A"), R("<details>"), R("<summary> Click to expand </summary>"), {"t": "Para", "c": [{"t": "Str", "c": "body"}]}, R("</details>"),
+                H(2, "B"), {"t": "Para", "c": [{"t": "Str", "c": "below"}]}, H(1, "C")]
+    if v < 0.08:
+        # a header without text that has deeper headers below it
+        H = lambda l, inl: {"t": "Header", "c": [l, ["h", [], []], inl]}
+        return [H(1, [{"t": "Str", "c": "Top"}]), H(2, []), H(3, [{"t": "Str", "c": "Deep"}]), {"t": "Para", "c": [{"t": "Str", "c": "x"}]},
+                H(2, [{"t": "Str", "c": "Sib"}])]
     for i in range(n):
         if (i == 0 and start_with_header) or rng.random() < 0.4:
             blocks.append(gen_header(rng, allow_bad, small))
